@@ -882,3 +882,105 @@ def manager_lte_fact(src_manager):
             ast.unparse(body[0].value) == "self.hydrodynamics.findvwLTE()",
             "wallSpeedLTE returns self.hydrodynamics.findvwLTE()")
     return "WallGoManager.wallSpeedLTE() = self.hydrodynamics.findvwLTE()"
+
+
+def manager_hydro_facts(src_manager, src_config):
+    """WallGoManager._initHydrodynamics builds Hydrodynamics(thermodynamics, tmax, tmin, rtol,
+    atol) from config.configHydrodynamics.{tmax, tmin, relativeTol, absoluteTol}, in this
+    positional order; the defaults of ConfigHydrodynamics are returned (the harness builds its
+    solvers from them)."""
+    tree = ast.parse(src_manager)
+    cls = [n for n in tree.body if isinstance(n, ast.ClassDef) and n.name == "WallGoManager"]
+    _expect(cls, "class WallGoManager")
+    fn = [f for f in cls[0].body if isinstance(f, ast.FunctionDef) and
+          f.name == "_initHydrodynamics"]
+    _expect(fn, "WallGoManager._initHydrodynamics")
+    fn = fn[0]
+    params = [a.arg for a in fn.args.args]
+    _expect(params == ["self", "thermodynamics"], "_initHydrodynamics(self, thermodynamics)")
+    body = [st for st in fn.body if not (isinstance(st, ast.Expr) and
+                                         isinstance(st.value, ast.Constant))]
+    env = {}
+    for st in body[:-1]:
+        _expect(isinstance(st, ast.Assign) and isinstance(st.targets[0], ast.Name),
+                "_initHydrodynamics: plain assignments before the constructor call")
+        env[st.targets[0].id] = ast.unparse(st.value)
+    last = body[-1]
+    _expect(isinstance(last, ast.Assign) and ast.unparse(last.targets[0]) ==
+            "self.hydrodynamics" and isinstance(last.value, ast.Call) and
+            ast.unparse(last.value.func) == "Hydrodynamics" and not last.value.keywords,
+            "self.hydrodynamics = Hydrodynamics(...) with positional arguments")
+    args = [env.get(ast.unparse(a), ast.unparse(a)) for a in last.value.args]
+    want = ["thermodynamics"] + ["self.config.configHydrodynamics." + x for x in (
+        "tmax", "tmin", "relativeTol", "absoluteTol")]
+    _expect(args == want, "Hydrodynamics(thermodynamics, configHydrodynamics.tmax, .tmin, "
+            ".relativeTol, .absoluteTol): %r" % (args,))
+    # every call site of _initHydrodynamics / constructor of Hydrodynamics in the manager
+    ctor = [n for n in ast.walk(cls[0]) if isinstance(n, ast.Call) and
+            ast.unparse(n.func) == "Hydrodynamics"]
+    _expect(len(ctor) == 1, "WallGoManager constructs Hydrodynamics in one place")
+    ctree = ast.parse(src_config)
+    cfg = [n for n in ctree.body if isinstance(n, ast.ClassDef) and
+           n.name == "ConfigHydrodynamics"]
+    _expect(cfg, "class ConfigHydrodynamics")
+    defaults = {}
+    for st in cfg[0].body:
+        if isinstance(st, ast.AnnAssign) and isinstance(st.target, ast.Name) and \
+                st.value is not None:
+            v = pyrx.const_value(st.value)
+            _expect(v is not None, "literal default for ConfigHydrodynamics." + st.target.id)
+            defaults[st.target.id] = v
+    _expect(set(defaults) == {"tmin", "tmax", "relativeTol", "absoluteTol"},
+            "ConfigHydrodynamics fields: %r" % sorted(defaults))
+    return dict(call="Hydrodynamics(thermodynamics, cfg.tmax, cfg.tmin, cfg.relativeTol, "
+                "cfg.absoluteTol) with cfg = self.config.configHydrodynamics",
+                defaults={k: str(v) for k, v in defaults.items()}), defaults
+
+
+def success_definition(src_h):
+    """The statement of matchDeflagOrHyb that defines Hydrodynamics.success, as a Coq
+    definition over (hybr reports success : bool, sum of squared residuals : R)."""
+    tree = ast.parse(src_h)
+    cls = [n for n in tree.body if isinstance(n, ast.ClassDef) and n.name == "Hydrodynamics"]
+    _expect(cls, "class Hydrodynamics")
+    stores = [(fn.name, n) for fn in cls[0].body if isinstance(fn, ast.FunctionDef)
+              for n in ast.walk(fn) if isinstance(n, ast.Assign) and
+              ast.unparse(n.targets[0]) == "self.success"]
+    by = {}
+    for name, n in stores:
+        by.setdefault(name, []).append(ast.unparse(n.value))
+    _expect(sorted(by) == ["__init__", "findvwLTE", "matchDeflagOrHyb"],
+            "self.success is stored in __init__, findvwLTE, matchDeflagOrHyb only: %r" %
+            sorted(by))
+    _expect(by["__init__"] == ["False"] and by["findvwLTE"] == ["True"],
+            "__init__: success = False; findvwLTE: success = True at its start")
+    _expect(len(by["matchDeflagOrHyb"]) == 1, "one definition of success in matchDeflagOrHyb")
+    node = [n for name, n in stores if name == "matchDeflagOrHyb"][0].value
+    _expect(isinstance(node, ast.BoolOp) and isinstance(node.op, ast.Or) and
+            len(node.values) == 2 and ast.unparse(node.values[0]) == "sol.success",
+            "success = sol.success or <residual test>: %s" % ast.unparse(node))
+    t = node.values[1]
+    _expect(isinstance(t, ast.Compare) and len(t.ops) == 1 and isinstance(t.ops[0], ast.Lt) and
+            ast.unparse(t.left) == "np.sum(sol.fun ** 2)" and
+            pyrx.const_value(t.comparators[0]) is not None,
+            "residual test np.sum(sol.fun**2) < literal: %s" % ast.unparse(t))
+    thr = pyrx.const_value(t.comparators[0])
+    text = ("(* Hydrodynamics.success as defined in matchDeflagOrHyb *)\n"
+            "Definition success_of (hybr_ok : bool) (sumsq : R) : bool :=\n"
+            "  hybr_ok || (if Rlt_dec sumsq %s then true else false).\n" % pyrx.rlit(thr))
+    return text, dict(success="sol.success or np.sum(sol.fun**2) < %s" % thr,
+                      threshold=str(thr))
+
+
+def eom_lte_fact(src_eom):
+    """EOM.solveWall takes the LTE velocity from self.hydrodynamics.findvwLTE() (third consumer
+    besides WallGoManager.wallSpeedLTE)"""
+    tree = ast.parse(src_eom)
+    calls = [n for n in ast.walk(tree) if isinstance(n, ast.Call) and
+             isinstance(n.func, ast.Attribute) and n.func.attr == "findvwLTE"]
+    _expect(len(calls) == 1 and ast.unparse(calls[0]) == "self.hydrodynamics.findvwLTE()",
+            "equationOfMotion.py calls self.hydrodynamics.findvwLTE() exactly once")
+    asg = [n for n in ast.walk(tree) if isinstance(n, ast.Assign) and n.value is calls[0]]
+    _expect(len(asg) == 1 and ast.unparse(asg[0].targets[0]) == "wallVelocityLTE",
+            "wallVelocityLTE = self.hydrodynamics.findvwLTE()")
+    return "EOM.solveWall: wallVelocityLTE = self.hydrodynamics.findvwLTE()"
